@@ -1,4 +1,16 @@
 //go:build verif
 
-// Package codec: see DESIGN.md (E5).
+// Package codec holds the bounded exhaustive checks of the KNXnet/IP and cEMI encoders
+// (DESIGN.md §5, engine E5):
+//
+//	C02  encode -> decode is the identity; decode -> encode -> decode is stable   (c02.go)
+//	C15  encoders write exactly the size they report, whatever the buffer held     (c15.go)
+//
+// Shared parts: val.go (JSON-able description of a library value, its construction, the domain
+// predicates of both properties, the offset -> encoder attribution from the reference layout, Go
+// source rendering for the emitted test bodies), spaces.go (shapes, boundary alphabets, the
+// enumerated spaces), equal.go (the deep-equality oracle), libcall.go (guarded library calls and
+// panic attribution), run.go (sharded enumeration, deterministic choice of the stored example).
+// fixes/ holds one unified diff per library defect these checks found (apply in numeric order
+// with git -C /repo apply).
 package codec
